@@ -250,6 +250,28 @@ fn f64_3d(d: &mut Draw) -> Outcome {
         let e = Matrix3::from(qs[i]).rm().max_abs_diff(&refs[i]);
         ensure!(e <= 1e-12 + conv, "quaternion-from_angle-f64", "Quaternion::from_angle_{} differs from the reference by {:e}", ["x", "y", "z"][i], e);
     }
+    // the same constructors of the other two representations, against the Matrix3 ones (Rad and Deg)
+    {
+        let m4s: [Matrix4<f64>; 3] = if use_deg { [Matrix4::from_angle_x(deg), Matrix4::from_angle_y(deg), Matrix4::from_angle_z(deg)] } else { [Matrix4::from_angle_x(Rad(t)), Matrix4::from_angle_y(Rad(t)), Matrix4::from_angle_z(Rad(t))] };
+        let b3s: [Basis3<f64>; 3] = if use_deg { [Rotation3::from_angle_x(deg), Rotation3::from_angle_y(deg), Rotation3::from_angle_z(deg)] } else { [Rotation3::from_angle_x(Rad(t)), Rotation3::from_angle_y(Rad(t)), Rotation3::from_angle_z(Rad(t))] };
+        for i in 0..3 {
+            let e = m4s[i].rm().max_abs_diff(&refs[i].embed(4));
+            ensure!(e <= 1e-12 + conv, "matrix4-from_angle-f64", "Matrix4::from_angle_{} differs from the reference (embedded) by {:e}", ["x", "y", "z"][i], e);
+            let e = Matrix3::from(b3s[i]).rm().max_abs_diff(&refs[i]);
+            ensure!(e <= 1e-12 + conv, "basis3-from_angle-f64", "Basis3::from_angle_{} differs from the reference by {:e}", ["x", "y", "z"][i], e);
+        }
+    }
+    // rotate_point(p) = origin + rotate_vector(p - origin) for points of any size, down to the subnormal range
+    {
+        let e = d.int(-1060, 60) as i32;
+        let sc = |x: f64| x * (2.0f64).powi(e / 2) * (2.0f64).powi(e - e / 2);
+        let p = Point3::new(sc(v.x), sc(v.y), sc(v.z));
+        let big = p.x.abs().max(p.y.abs()).max(p.z.abs());
+        for (name, rp, rv) in [("Quaternion", qt.rotate_point(p), qt.rotate_vector(p.to_vec())), ("Basis3", b3.rotate_point(p), b3.rotate_vector(p.to_vec()))] {
+            ensure!((rp.x - rv.x).abs() <= 4.0 * f64::EPSILON * big && (rp.y - rv.y).abs() <= 4.0 * f64::EPSILON * big && (rp.z - rv.z).abs() <= 4.0 * f64::EPSILON * big, "rotate_point-small-f64",
+                "{}::rotate_point({:?}) = {:?} but rotate_vector of its position vector is {:?}", name, p, rp, rv);
+        }
+    }
     // composition about a common axis
     let q2: Quaternion<f64> = Rotation3::from_axis_angle(axis, Rad(t2));
     let q12: Quaternion<f64> = Rotation3::from_axis_angle(axis, Rad(t + t2));
@@ -298,6 +320,19 @@ fn f64_2d(d: &mut Draw) -> Outcome {
     ensure!((ey - Vector2::new(-s, c)).magnitude() <= tol2, "matrix2-ey-f64", "(0,1) -> {:?}, expected ({}, {})", ey, -s, c);
     let bx = b.rotate_vector(Vector2::unit_x());
     ensure!((bx - Vector2::new(c, s)).magnitude() <= tol2, "basis2-ex-f64", "Basis2 (1,0) -> {:?}", bx);
+    // rotate_point(p) = origin + rotate_vector(p - origin) for points of any size, down to the subnormal range: a point
+    // next to the origin is still not the origin
+    {
+        let e = d.int(-1060, 60) as i32;
+        let sc = |x: f64| x * (2.0f64).powi(e / 2) * (2.0f64).powi(e - e / 2);
+        let p = Point2::new(sc(d.f64_in(-10.0, 10.0)), sc(d.f64_in(-10.0, 10.0)));
+        let (rp, rv) = (b.rotate_point(p), b.rotate_vector(p.to_vec()));
+        let big = p.x.abs().max(p.y.abs());
+        ensure!((rp.x - rv.x).abs() <= 4.0 * f64::EPSILON * big && (rp.y - rv.y).abs() <= 4.0 * f64::EPSILON * big, "basis2-rotate_point-f64",
+            "Basis2::rotate_point({:?}) = {:?} but rotate_vector of its position vector is {:?}", p, rp, rv);
+        let mv = m * p.to_vec();
+        ensure!((rv.x - mv.x).abs() <= 4.0 * f64::EPSILON * big && (rv.y - mv.y).abs() <= 4.0 * f64::EPSILON * big, "basis2-rotate_vector-f64", "Basis2::rotate_vector({:?}) = {:?}, Matrix2 * v = {:?}", p.to_vec(), rv, mv);
+    }
     pass(if use_deg { "deg" } else { "rad" }, s.abs() > 1e-3 && c.abs() > 1e-3)
 }
 
@@ -379,8 +414,8 @@ pub fn property() -> Property {
     add!("axis_angle-Q", "Q", exact_3d, 4000, 250_000, 48, &[("generic", 100)]);
     add!("from_angle_xyz-Q", "Q", exact_axes, 4000, 250_000, 24, &[("generic", 200)]);
     add!("from_angle_2d-Q", "Q", exact_2d, 4000, 250_000, 32, &[("generic", 200)]);
-    add!("axis_angle-f64", "f64", f64_3d, 6000, 400_000, 96, &[("rad", 200), ("deg", 200)]);
-    add!("from_angle_2d-f64", "f64", f64_2d, 4000, 200_000, 16, &[("rad", 200), ("deg", 200)]);
+    add!("axis_angle-f64", "f64", f64_3d, 6000, 400_000, 112, &[("rad", 200), ("deg", 200)]);
+    add!("from_angle_2d-f64", "f64", f64_2d, 4000, 200_000, 32, &[("rad", 200), ("deg", 200)]);
     const INV: &[(&str, u32)] = &[("constructor-output", 100), ("2-to-12-factors", 100), ("13-to-300-factors", 100), ("301-to-2600-factors", 200)];
     add!("invert_composed-f64", "f64", invert_composed_f64, 400, 20_000, 80, INV);
     add!("invert_composed-f32", "f32", invert_composed_f32, 400, 20_000, 80, INV);
